@@ -75,7 +75,7 @@ func (w *World) RefreshedByDecrypt(ev *Event, id string, created int64, from int
 		if o.At <= from {
 			break
 		}
-		if o == ev || o.Kind != "decrypt" || o.Proc != ev.Proc || o.Proc.Gen != ev.Proc.Gen {
+		if o == ev || o.Kind != "decrypt" || o.Proc != ev.Proc || o.Gen != ev.Gen {
 			continue
 		}
 		if !sameIKCache(o, ev) {
@@ -90,21 +90,46 @@ func (w *World) RefreshedByDecrypt(ev *Event, id string, created int64, from int
 	return nil
 }
 
+// NewerKnownToCache reports whether, before ev, the IK cache ev ran on had already loaded or
+// created a NEWER key for id than (id, created): a cache that knows a newer key and goes back
+// to an older one is not the listed "decrypt refresh" finding (there the cache never learns
+// that anything newer exists).
+func (w *World) NewerKnownToCache(ev *Event, id string, created int64) bool {
+	for _, o := range w.Events {
+		if o == ev || o.At > ev.At || o.Proc != ev.Proc || o.Gen != ev.Gen || o.Seq >= ev.Seq {
+			continue
+		}
+		if o.Kind != "encrypt" && o.Kind != "decrypt" {
+			continue
+		}
+		if !sameIKCache(o, ev) {
+			continue
+		}
+		for _, c := range w.Log.Calls[o.CallFrom:o.CallTo] {
+			if c.Target != "store" || c.ID != id || !c.OK {
+				continue
+			}
+			if (c.Op == "Store" && c.Created > created) || (c.Op != "Store" && c.Found > created) {
+				return true
+			}
+		}
+	}
+	return false
+}
+
 // sameIKCache: two operations of one process share an IK cache when the cache is
-// shared by policy, when they ran on the same session, or when sessions are cached
-// and they address the same partition.
+// shared by policy, when they ran on the same session handle, or when the session cache handed
+// both handles the very same SDK session object (a cached session that was evicted and
+// rebuilt in between is a different object with a cache of its own).
 func sameIKCache(a, b *Event) bool {
 	pol := a.Proc.Policy
 	if pol.SharedIntermediateKeyCache && pol.CacheIntermediateKeys {
 		return true
 	}
-	if a.Sess != nil && b.Sess != nil && a.Sess == b.Sess {
-		return true
+	if a.Sess == nil || b.Sess == nil {
+		return false
 	}
-	if pol.CacheSessions && a.Partition == b.Partition {
-		return true
-	}
-	return false
+	return a.Sess == b.Sess || (a.Sess.S != nil && a.Sess.S == b.Sess.S)
 }
 
 // IsParentMismatchSKLeak recognises the listed finding "sk-ref-leak-on-parent-mismatch"
